@@ -51,6 +51,15 @@ def gen_cases(tier, seed):
             for u in UNSTARTABLE:
                 cases.append({"id": "%s-%s-%s" % (site, msg, u), "sig": [site, msg, "all", u], "site": site, "msg": msg, "pos": "all", "mode": u,
                               "kind": "verify"})
+    # metadata verification (remote loader with a verification certificate; HTTP object replaced by an in-process stub)
+    for msg in ("valid", "tampered"):
+        for pos in ("1", "all"):
+            for mode in VERIFY_MODES:
+                cases.append({"id": "verify-metadata-%s-%s-%s" % (msg, pos, mode), "sig": ["verify-metadata", msg, pos, mode], "site": "verify-metadata",
+                              "msg": msg, "pos": pos, "mode": mode, "kind": "verify"})
+        for u in UNSTARTABLE:
+            cases.append({"id": "verify-metadata-%s-%s" % (msg, u), "sig": ["verify-metadata", msg, "all", u], "site": "verify-metadata", "msg": msg,
+                          "pos": "all", "mode": u, "kind": "verify"})
     for site in ("sign-response", "sign-assertion", "sign-both", "sign-request"):
         for pos in POSITIONS:
             for mode in NORESULT_MODES + DAMAGE_MODES:
@@ -152,6 +161,48 @@ def run_case(case, ctx):
 
     def log_events():
         return [e for e in ctx.events() if not e.get("case", "").startswith("harness:")]
+
+    if kind == "verify" and site == "verify-metadata":
+        from vlib import mdgen
+        from saml2_tophat import mdstore
+        from saml2_tophat.attribute_converter import ac_factory
+        from saml2_tophat.config import Config
+        REDIR = "urn:oasis:names:tc:SAML:2.0:bindings:HTTP-Redirect"
+        doc = mdgen.entities([{"eid": "https://e0.example.org/md", "idp": {"keys": [("signing", 0)], "sso": [(REDIR, "https://e0.example.org/sso")]}}], ident="md-doc-1")
+        text = xk.sign_element(doc, mdgen.MD, "EntitiesDescriptor", "md-doc-1", fed.key(9)[0], "rsa-sha256", fed.cert_body(9))
+        if case["msg"] == "tampered":
+            text = text.replace("https://e0.example.org/sso", "https://attacker.example.net/sso")
+        cnf = Config().load({"entityid": "https://loader.example.org/md", "xmlsec_binary": tool or env.XMLSEC, "key_file": fed.key(1)[0], "cert_file": fed.key(1)[1]})
+        store = mdstore.MetadataStore(ac_factory(), cnf)
+
+        class _Http(object):
+            def send(self, url, *a, **kw):
+                class R(object):
+                    status_code = 200
+                r = R()
+                r.text = text
+                r.content = text.encode("utf-8")
+                return r
+        store.http = _Http()
+        with Fault(ctx, case):
+            try:
+                store.load("remote", url="https://md.example.org/fed.xml", cert=fed.key(9)[1])
+                exc = None
+            except Exception as e:
+                exc = e
+            evs = log_events()
+        served = sorted(store.keys())
+        injected = len([e for e in evs if e.get("fault")]) + (1 if unstart else 0)
+        genuine = [e for e in evs if monitors.genuine_ok(e)]
+        outcome = ("served" if served else "not-served") + (":" + type(exc).__name__ if exc is not None else "")
+        if served and case["msg"] == "tampered":
+            viol.append({"key": "C20/tampered-metadata-served-under-tool-fault", "what": desc + ": entities %r served" % served})
+        elif served and not genuine:
+            viol.append({"key": "C20/metadata-served-without-genuine-verification", "what": desc + ": entities %r served, verify events %r" % (
+                served, [monitors.slim(e) for e in evs][:4])})
+        return {"outcome": outcome, "nontrivial": injected > 0, "violations": viol,
+                "counters": {"faults_injected": injected, "accepted": int(bool(served)), "genuine_ok_events": len(genuine)},
+                "obs": {"events": [monitors.slim(e) for e in evs][:4]}}
 
     if kind == "verify":
         if site == "verify-request":
